@@ -84,6 +84,22 @@ def paths():
            [("a.p", P3), ("b0.q", P3), ("c0.q", P3), ("b0.i", INT_DOM), ("c0.i", INT_DOM), ("b0.j", [0, 1]), ("c0.j", [0, 1])])
 
 
+def paths2():
+    """Read paths added after a seeded change was missed: reads placed after a switch whose clauses
+    break (backward jump to the exit slot), with and without default, through a local or directly."""
+    yield ("read-after-switch-default-break", "let s = 0; switch (c0.j) { case 1: s = 1; break; default: s = 2; break; }", "(s * 10 + a.i)",
+           lambda st: (1 if st["c0.j"] == 1 else 2) * 10 + st["a.i"], [("c0.j", INT_DOM), ("a.i", INT_DOM)])
+    yield ("object-chosen-by-switch-with-default", "let o = a; switch (c0.j) { case 1: o = b0; break; default: o = c0; break; }", "o.i",
+           lambda st: st[{1: "b0"}.get(st["c0.j"], "c0") + ".i"], [("c0.j", INT_DOM), ("b0.i", INT_DOM), ("c0.i", INT_DOM)])
+    yield ("read-after-switch-default-first", "let s = 0; switch (c0.j) { default: s = 2; break; case 1: s = 1; break; }", "(s * 10 + a.i)",
+           lambda st: (1 if st["c0.j"] == 1 else 2) * 10 + st["a.i"], [("c0.j", INT_DOM), ("a.i", INT_DOM)])
+    yield ("read-after-switch-fallthrough-then-break", "let s = 0; switch (c0.j) { case 1: s = 1; case 2: s = s + 2; break; default: s = 9; }", "(s * 10 + a.i)",
+           lambda st: {1: 3, 2: 2}.get(st["c0.j"], 9) * 10 + st["a.i"], [("c0.j", INT_DOM), ("a.i", INT_DOM)])
+    yield ("read-after-nested-if-join", "let s = 0; if (c0.b) { if (c0.c) { s = 1; } else { s = 2; } } else { s = 3; }", "(s * 10 + a.i)",
+           lambda st: ((1 if st["c0.c"] else 2) if st["c0.b"] else 3) * 10 + st["a.i"],
+           [("c0.b", BOOL_DOM), ("c0.c", BOOL_DOM), ("a.i", INT_DOM)])
+
+
 def three_reads(st):
     w = st["a.p"]
     x = 0
@@ -109,11 +125,18 @@ def positions():
            lambda st, r: r(st) if st["a.j"] == 1 else 9, [("a.j", INT_DOM)])
     yield ("after-early-return", "{pre} if (a.c) return 9; return {R};", lambda st, r: 9 if st["a.c"] else r(st),
            [("a.c", BOOL_DOM)])
+    # completion values instead of explicit returns (the last expression statement is the value)
+    yield ("early-return-then-literal-completion", "{pre} if (a.c) {{ return {R}; }} 9", lambda st, r: r(st) if st["a.c"] else 9,
+           [("a.c", BOOL_DOM)])
+    yield ("literal-return-then-completion", "{pre} if (a.c) {{ return 9; }} {R}", lambda st, r: 9 if st["a.c"] else r(st),
+           [("a.c", BOOL_DOM)])
+    yield ("completion-in-both-arms", "{pre} if (a.c) {{ {R} }} else {{ 9 }}", lambda st, r: r(st) if st["a.c"] else 9,
+           [("a.c", BOOL_DOM)])
 
 
 def programs(tier):
     """Yields dict(name, source, sinks=[(object, prop, fn)], props=[(key, domain)])."""
-    for (pn, pre, R, pf, pprops), (qn, tmpl, qf, qprops) in itertools.product(paths(), positions()):
+    for (pn, pre, R, pf, pprops), (qn, tmpl, qf, qprops) in itertools.product(list(paths()) + list(paths2()), positions()):
         props = []
         for k, d in pprops + qprops:
             if k not in [x for x, _ in props]:
@@ -122,6 +145,28 @@ def programs(tier):
         src = HEAD + f"    VObj {{\n        id: t\n        ri: {{ {body} }}\n    }}\n}}\n"
         fn = (lambda pf_, qf_: (lambda st: qf_(st, pf_)))(pf, qf)
         yield {"name": f"{pn}/{qn}", "source": src, "sinks": [("t", "ri", fn)], "props": props}
+    if tier == "thorough":
+        # two read paths in one expression (every ordered pair whose joint valuation space stays small)
+        for (pn, pre, R, pf, pprops), (qn, pre2, R2, pf2, pprops2) in itertools.product(paths(), paths()):
+            if pn >= qn:
+                continue
+            locals1 = set(re.findall(r"let (\w+)", pre))
+            locals2 = set(re.findall(r"let (\w+)", pre2))
+            if locals1 & locals2:
+                continue
+            props = []
+            for k, d in pprops + pprops2:
+                if k not in [x for x, _ in props]:
+                    props.append((k, d))
+            size = 1
+            for _k, d in props:
+                size *= len(d)
+            if size > 1500:
+                continue
+            body = f"{pre} {pre2} return {R} * 5 + {R2};"
+            src = HEAD + f"    VObj {{\n        id: t\n        ri: {{ {body} }}\n    }}\n}}\n"
+            fn = (lambda a_, b_: (lambda st: a_(st) * 5 + b_(st)))(pf, pf2)
+            yield {"name": f"pair/{pn}+{qn}", "source": src, "sinks": [("t", "ri", fn)], "props": props}
     # chained bindings and two bindings on one source
     yield {"name": "chain/two-bindings",
            "source": HEAD + "    VObj { id: m; ri: a.i + 1 }\n    VObj { id: t; ri: m.ri * 2 }\n}\n",
@@ -279,7 +324,7 @@ def unobservable_cases():
 
 def shard_work(shard, nshards, payload):
     tier = payload["tier"]
-    depth = 4 if tier == "thorough" else 3
+    depth = 12
     vd = vc.worker_vdrive()
     t = vc.Tally()
     ps = []
@@ -353,7 +398,7 @@ def judge(t, p, res):
     m = p.meta
     case = {"program": m["name"], "source": m["source"], "props": m["props"], "domains": m["domains"]}
     if res["compile_error"]:
-        t.lost.append({"program": m["name"], "compile_error": res["compile_error"][-400:]})
+        t.violation("generated-code-does-not-compile", dict(case, compile_error=res["compile_error"][-700:]))
         t.inc("programs_not_compiling")
         return
     if res["crash"]:
@@ -375,6 +420,10 @@ def judge(t, p, res):
     for k in ("states", "transitions", "histories", "pruned", "target_changes", "reattach"):
         t.inc(k, int(summary[k]))
     t.counts["max_connections"] = max(t.counts.get("max_connections", 0), int(summary["max_connections"]))
+    t.counts["max_depth_reached"] = max(t.counts.get("max_depth_reached", 0), int(summary.get("max_depth", 0)))
+    t.inc("frontier_states_cut_by_depth_bound", int(summary.get("depth_cut", 0)))
+    if int(summary.get("depth_cut", 0)) == 0:
+        t.inc("programs_explored_to_closure")
     t.inc("valuations", m["valuations"])
     t.inc("undefined_valuations", m["undefined"])
     if int(summary["target_changes"]) > 0:
@@ -405,7 +454,7 @@ def main(tier, t0):
                 "checked after setup() and after every event; distinct_nontrivial = programs whose target "
                 "actually changed during exploration",
         "exhaustive": True,
-        "bound_completed": {"depth": 4 if tier == "thorough" else 3, "domains": "int {0,1,2}, bool, pointers {null,b0,c0}"},
+        "bound_completed": {"depth": 12, "closure": "see programs_explored_to_closure", "path_pairs": tier == "thorough", "domains": "int {0,1,2}, bool, pointers {null,b0,c0}"},
         "programs": c.get("programs", 0),
         "valuations": c.get("valuations", 0), "undefined_valuations": c.get("undefined_valuations", 0),
         "pruned_transitions_into_undefined_states": c.get("pruned", 0),
@@ -413,6 +462,9 @@ def main(tier, t0):
         "transitions_where_observers_or_connections_changed": c.get("reattach", 0),
         "programs_with_observer_reattachment": c.get("programs_with_observer_reattachment", 0),
         "max_connections_alive": c.get("max_connections", 0),
+        "programs_explored_to_closure": c.get("programs_explored_to_closure", 0),
+        "frontier_states_cut_by_depth_bound": c.get("frontier_states_cut_by_depth_bound", 0),
+        "max_depth_reached": c.get("max_depth_reached", 0),
         "notify_clause_programs": c.get("notify_clause_programs", 0),
         "programs_not_compiling": c.get("programs_not_compiling", 0),
     }
